@@ -95,6 +95,11 @@ SampleMasks3 == {{}, {<<1, 0, 0, 0>>}, {<<2, 0, 0, 0>>, <<3, 0, 0, 0>>}, {<<1, 0
 Masks3D == {{}, {<<1, 0, 0, 0>>}, {<<2, 0, 0, 0>>}, {<<1, 0, 1, 0>>}, {<<1, 0, 2, 0>>, <<2, 0, 1, 0>>},
             {<<1, 1, 1, 0>>}, {<<2, 2, 2, 0>>, <<1, 0, 1, 0>>}, {<<1, 0, 0, 0>>, <<2, 0, 0, 0>>}}
 MasksFixed == {{}, {<<1, 0, 1, 0>>}, {<<1, 1, 2, 0>>}, {<<1, 0, 3, 0>>, <<1, 2, 1, 0>>}}
+\* fixed / crossvalidation results in which one model has no value at all (constant model RDM under corr, a
+\* fitter failing in every fold) - in EVERY model position, alone and together with other NaN marks
+MasksNanModel == {{<<1, 1, 0, 0>>}, {<<1, 2, 0, 0>>}, {<<1, 3, 0, 0>>},
+                  {<<1, 1, 0, 0>>, <<1, 0, 2, 0>>}, {<<1, 2, 0, 0>>, <<1, 1, 1, 0>>}, {<<1, 3, 0, 0>>, <<1, 0, 1, 0>>},
+                  {<<1, 1, 0, 0>>, <<1, 2, 0, 0>>}}
 Masks4D == {{}, {<<1, 0, 0, 0>>}, {<<2, 0, 1, 0>>}, {<<1, 0, 2, 1>>}, {<<1, 1, 1, 2>>},
             {<<1, 1, 1, 2>>, <<2, 2, 2, 1>>, <<2, 0, 1, 1>>}, {<<2, 0, 0, 0>>, <<1, 0, 1, 0>>, <<1, 2, 2, 2>>},
             {<<1, 0, 1, 1>>, <<1, 0, 2, 0>>}, {<<3, 0, 0, 0>>, <<1, 0, 1, 2>>}, {<<1, 0, 0, 0>>, <<2, 0, 0, 0>>, <<3, 0, 0, 0>>}}
@@ -108,6 +113,8 @@ MeanGrid ==
       {MeanRec(2, 2, 3, Mask2(ev, msk)) : ev \in Arr2(2, 3, {-1, 2}), msk \in {{}, {<<1, 0, 0, 0>>}, {<<2, 0, 0, 0>>}}},
       {MeanRec(2, 3, 2, Mask3(ev, msk)) : ev \in Arr3(2, 2, 2, {-1, 2}), msk \in Masks3D},
       {MeanRec(1, 3, 2, Mask3(ev, msk)) : ev \in Arr3(1, 2, 3, {-1, 2}), msk \in MasksFixed},
+      {MeanRec(1, 3, 2, Mask3(ev, msk)) : ev \in Arr3(1, 2, 2, {-1, 2}), msk \in MasksNanModel},
+      {MeanRec(1, 3, 3, Mask3(ev, msk)) : ev \in Arr3(1, 3, 2, {-1, 2}), msk \in MasksNanModel},
       {MeanRec(2, 4, 2, Mask4(Gen4(3, 2, 2, 2, G1), msk)) : msk \in Masks4D},
       {MeanRec(2, 4, 3, Mask4(Gen4(3, 3, 2, 2, G2), msk)) : msk \in Masks4D},
       {MeanRec(2, 4, 2, Mask4(Gen4(3, 2, 2, 3, G3), msk)) : msk \in Masks4D},
